@@ -497,8 +497,29 @@ func checkTypedMonitor(c *Ctx, rel string) {
 					if !(e.Recv.K == "load" || e.Recv.K == "freevar") {
 						ok = false
 					}
+					// what it is handed is the adapted object (or list) that came with this very
+					// callback — not something looked up elsewhere at a later time
+					if len(e.Args) != 1 {
+						ok = false
+					} else {
+						a := e.Args[0]
+						if a.K == "extract" && len(a.A) == 1 {
+							a = a.A[0]
+						}
+						fromParam := a.K == "call" && (strings.HasSuffix(a.S, "adaptObject") || strings.HasSuffix(a.S, "adaptList")) && len(a.A) >= 1 && a.A[len(a.A)-1].K == "param"
+						if !fromParam {
+							ok = false
+						}
+					}
+					continue
 				}
 				if e.Kind == "go" {
+					ok = false
+				}
+				if (e.Kind == "invoke" || e.Kind == "call" || e.Kind == "dyncall") && !e.IsPure() {
+					if e.Kind == "call" && e.Fn != nil && (strings.HasSuffix(fnName(e.Fn), "adaptObject") || strings.HasSuffix(fnName(e.Fn), "adaptList")) {
+						continue
+					}
 					ok = false
 				}
 			}
